@@ -51,6 +51,18 @@ def describe(statechart) -> dict:
     return {'states': states, 'transitions': transitions}
 
 
+def signature(statechart) -> str:
+    """A cheap fingerprint of the structure, to notice statecharts edited while they are executed."""
+    parts = []
+    for name in statechart.states:
+        state = statechart.state_for(name)
+        parts.append((name, type(state).__name__, statechart.parent_for(name),
+                      getattr(state, 'initial', None), getattr(state, 'memory', None)))
+    for t in statechart.transitions:
+        parts.append((id(t), t.source, t.target, t.event, t.priority, t.guard is not None))
+    return repr(parts)
+
+
 def step(macro_step) -> list:
     if macro_step is None:
         return []
